@@ -58,7 +58,7 @@ def gen(rng, tier, no, wide=False):
                 e.pop("args", None)
             if e.get("ph") == "X" and "stream" in (e.get("args") or {}) and rng.random() < 0.05:
                 e["args"]["stream"] = str(e["args"]["stream"])
-    case["params"] = {"mode": mode, "gz": rng.random() < 0.4, "mp": rng.random() < 0.25, "compact": rng.random() < 0.3, "frac": rng.random() < 0.12}
+    case["params"] = {"mode": mode, "gz": rng.random() < 0.4, "mp": rng.random() < 0.25, "compact": rng.random() < 0.3, "frac": rng.random() < 0.35}
     return case
 
 
